@@ -3,7 +3,7 @@
 # Applies a seeded change to /repo, runs the given checks, prints exit codes and VIOLATION lines, and
 # ALWAYS restores /repo afterwards. Never commits anything in /repo.
 set -u
-PATCH="$1"; shift
+PATCH="$(realpath "$1")"; shift
 TIER="quick"
 cd /verif || exit 2
 if ! git -C /repo diff --quiet; then echo "refusing: /repo has uncommitted changes"; exit 2; fi
